@@ -115,7 +115,7 @@ def infer_spin_mutex(traces):
                 continue
             tid, op = w[0], w[1]
             st = per.get(tid)
-            if op == "cas0" and w[4].startswith("fail"):
+            if op in ("cas0", "casw0") and w[4].startswith("fail"):
                 per[tid] = 0
             elif op == "load0" and st is not None and w[4] == "1":
                 per[tid] = st + 1
